@@ -207,7 +207,14 @@ def analyse(unit, tier, state_label):
 def warm_up(exclude=None):
     """instantiate every simple type (but the target) once with a valid value (process-wide lazily filled tables)"""
     import musicxml.xsd.xsdsimpletype as ST
-    for tn in sorted(lib.MODEL['simple']):
+
+    def depth(tn):
+        d, n = lib.MODEL['simple'][tn], 0
+        while d.get('base') in lib.MODEL['simple'] and n < 20:
+            d = lib.MODEL['simple'][d['base']]
+            n += 1
+        return n
+    for tn in sorted(lib.MODEL['simple'], key=lambda t: (depth(t), t)):      # base types before the types derived from them
         cls = getattr(ST, simple_class_name(tn), None)
         if cls is None or tn == exclude or (isinstance(exclude, (set, frozenset, list, tuple)) and tn in exclude):
             continue
